@@ -236,6 +236,36 @@ PROPS = {
         "stubs": ["check::unitless_int returns Ok(arbitrary i64) or Err", "get_list / ResolvedArgs::get* are opaque events", "Vec::index_mut is an event"],
         "assumptions": ["rustc nightly MIR text = the code that is compiled", "mirsym's MIR subset semantics (/verif/mirsym/sym.py)", "z3 5.1 and cvc5 1.0.3 (every query on both)"],
     },
+    "C04": {
+        "engines": ["E2 mirsym+z3/cvc5"],
+        "e2": True,
+        "functions": [
+            ("rsass::input::Context::find_file (candidate tables, table choice)", "input/context.rs", r"pub fn find_file"),
+            ("rsass::input::Context::do_find_file", "input/context.rs", r"fn do_find_file"),
+            ("<FsLoader as Loader>::find_file", "input/fsloader.rs", r"fn find_file\(&self, url: &str\)"),
+        ],
+        "bounds": {"quick": "both candidate tables in full (read from the compiled closures' format templates); do_find_file for 0..3 candidates and FsLoader for "
+                            "0..3 load paths with EVERY combination of absent / present / failing answers of the stubbed loader and file system"},
+        "outside": "`relative()` (URL relative to the importing file), the plain-CSS @import fallback in transform.rs, canonicalisation of `./` and `..`, "
+                   "CargoLoader, more than 3 candidates/load paths per loop (same loop body)",
+        "stubs": ["<AnyLoader as Loader>::find_file, Path::is_file, File::open: nondeterministic stubs (every Ok/None/Err outcome)", "tracing macros: level test false (logging has an empty body)",
+                  "String/Path construction is opaque; names are tracked by identity"],
+        "assumptions": ["rustc nightly MIR text = the code that is compiled", "mirsym's MIR subset semantics (/verif/mirsym/sym.py)", "z3 5.1 and cvc5 1.0.3 (every query on both)"] + ["the byte encoding of fmt::Arguments templates of the pinned nightly (0xC0 = next argument, n<0x80 = n literal bytes); a template that does not decode is inconclusive"],
+    },
+    "C39": {
+        "engines": ["E2 mirsym+z3/cvc5"],
+        "e2": True,
+        "functions": [
+            ("rsass::input::Context::find_file (error propagation)", "input/context.rs", r"pub fn find_file"),
+            ("rsass::input::Context::do_find_file", "input/context.rs", r"fn do_find_file"),
+            ("<FsLoader as Loader>::find_file", "input/fsloader.rs", r"fn find_file\(&self, url: &str\)"),
+        ],
+        "bounds": {"quick": "one call of find_file / do_find_file / FsLoader::find_file with a failure injected at EVERY loader, open, read and lock call site (all outcome "
+                            "combinations, loops unrolled 3 times)"},
+        "outside": "the callers of find_file in the evaluator (transform.rs, load_css) and whole compilations after a failure; SourceFile::read itself (std I/O); panics inside std",
+        "stubs": ["<AnyLoader as Loader>::find_file, Path::is_file, File::open, SourceFile::read, lock_loading: nondeterministic stubs (every Ok/Err outcome)", "tracing macros: level test false"],
+        "assumptions": ["rustc nightly MIR text = the code that is compiled", "mirsym's MIR subset semantics (/verif/mirsym/sym.py)", "z3 5.1 and cvc5 1.0.3 (every query on both)"],
+    },
     "C29": {
         "engines": ["E1 Kani/CBMC", "E2 mirsym+z3/cvc5"],
         "e2": True,
